@@ -35,7 +35,7 @@ CONSTANTS PatchPaths,   \* import paths a patch may mention
           Mode          \* "guards" (C10 universe) | "edits" (C11 universe)
 
 \* the package name an import path is assumed to provide (its last element)
-Base(path) == CASE path = "x/p" -> "p" [] path = "y/p" -> "p" [] path = "x/q" -> "q"
+Base(path) == CASE path = "x/p" -> "p" [] path = "y/p" -> "p" [] path = "x/q" -> "q" [] path = "x/v2" -> "v2"
                 [] path = "x/o" -> "o" [] path = "fmt" -> "fmt" [] OTHER -> "unknown"
 Alt(path) == "alt" \o Base(path)          \* a local name different from the base name
 
@@ -78,7 +78,7 @@ FileImpSets ==
       choice == [paths -> {"absent"} \cup UNION {FNames(p) : p \in paths}]
   IN {c \in choice : \A p \in paths : c[p] = "absent" \/ c[p] \in FNames(p)}
 \* as a sequence in a fixed order of paths
-PathOrder == <<"fmt", "x/o", "x/p", "x/q", "y/p">>
+PathOrder == <<"fmt", "x/o", "x/p", "x/q", "x/v2", "y/p">>
 FImpSeq(c) == LET idx == {i \in 1..Len(PathOrder) : PathOrder[i] \in DOMAIN c /\ c[PathOrder[i]] # "absent"}
                   s == SetToSortSeq(idx, LAMBDA a, b : a < b)
               IN [k \in 1..Len(s) |-> [name |-> c[PathOrder[s[k]]], path |-> PathOrder[s[k]]]]
